@@ -292,6 +292,10 @@ func (g *Gen) assumeComp(st *State, x Term, c Comp) {
 		if st != nil {
 			g.assumeOld(st, x)
 		}
+	case "bbase":
+		if st != nil {
+			g.assumeOld(st, x)
+		}
 	case "strbase":
 		g.assume(Term{app("<=", x.S, "0"), SBool})
 	}
@@ -359,6 +363,39 @@ func (g *Gen) merge(b *ssa.BasicBlock, es []edge) (*State, Term) {
 			res[i] = m
 		}
 		out.cells[al] = res
+	}
+	// mutable ghosts
+	for _, name := range sortedKeys(g.gvDef) {
+		def := g.gvDef[name]
+		res := Val{T: def.T, C: make([]Term, len(def.C))}
+		changed := false
+		for i := range def.C {
+			var ts []Term
+			same := true
+			for _, e := range es {
+				t := g.gvCur(e.st, name).C[i]
+				ts = append(ts, t)
+				if t.S != ts[0].S {
+					same = false
+				}
+			}
+			if same {
+				res.C[i] = ts[0]
+				continue
+			}
+			changed = true
+			m := g.fresh("m_gv_"+name, def.C[i].Sort)
+			for k, e := range es {
+				g.assume(implies(e.cond, eq(m, ts[k])))
+			}
+			res.C[i] = m
+		}
+		if changed || len(es[0].st.gv) > 0 {
+			if out.gv == nil {
+				out.gv = map[string]Val{}
+			}
+			out.gv[name] = res
+		}
 	}
 	// heap
 	fams := map[string]bool{}
@@ -434,6 +471,31 @@ func (g *Gen) loopHead(li *loopInfo) {
 	//    it is checked here for the pre-loop state, assumed for the havoced state and re-checked at back edges
 	pre := g.st.clone()
 	g.havocLoop(li)
+	// mutable ghosts re-assigned inside the loop become unknown at its head (the invariants say what is kept)
+	if g.con != nil && len(g.gvDef) > 0 {
+		for _, b := range sortedBlocks(li.blocks) {
+			for _, ins := range b.Instrs {
+				c, ok := ins.(*ssa.Call)
+				if !ok {
+					continue
+				}
+				for _, k := range g.callKeys(c) {
+					for _, gd := range g.con.AfterGhost[k] {
+						if def, ok := g.gvDef[gd.Name]; ok {
+							nv := Val{T: def.T}
+							for _, t := range def.C {
+								nv.C = append(nv.C, g.fresh("lgv_"+gd.Name, t.Sort))
+							}
+							if g.st.gv == nil {
+								g.st.gv = map[string]Val{}
+							}
+							g.st.gv[gd.Name] = nv
+						}
+					}
+				}
+			}
+		}
+	}
 	if g.con != nil {
 		for _, fam := range li.havocFams {
 			if t, ok := pre.heap[fam]; ok {
@@ -480,6 +542,9 @@ func (g *Gen) backEdge(li *loopInfo, cond Term) {
 	g.curLoop = li
 	defer func() { g.curPos = savedPos; g.curLoop = nil }()
 	g.reach = g.define("backedge", cond)
+	// vacuity guard: some back edge of every loop must be reachable (a contradiction that only arises inside the
+	// loop body - e.g. from a callee's assumed contract - would otherwise prove every preservation obligation)
+	g.cover(fmt.Sprintf("cover.back[%d]", li.ordinal), "back edge reachable")
 	if g.con != nil {
 		for _, fam := range li.havocFams {
 			if t, ok := g.st.heap[fam]; ok {
@@ -882,6 +947,9 @@ func calleeBareName(x *ssa.Call) string {
 	if f := cc.StaticCallee(); f != nil {
 		return f.Name()
 	}
+	if pr := callbackParam(cc.Value); pr != nil {
+		return pr.Name() // user callback
+	}
 	return ""
 }
 
@@ -1022,6 +1090,8 @@ func (g *Gen) noteLoaded(v Val) {
 		switch c.Kind {
 		case "ref", "base":
 			g.assume(Term{app("<=", "0", v.C[i].S), SBool})
+			g.assumeOld(g.st, v.C[i])
+		case "bbase":
 			g.assumeOld(g.st, v.C[i])
 		case "strbase":
 			g.assume(Term{app("<=", v.C[i].S, "0"), SBool})
